@@ -208,10 +208,7 @@ def stage_pipeline(sc: Dict[str, Any], salt: int) -> Dict[str, str]:
         P.write_genbank(infile, sc["records"])
         args = P.base_args(outdir) + list(sc.get("extra_args", [])) + list(sc.get("sideload_cli", []))
         if sc.get("sideload"):
-            side = os.path.join(work, "sideload.json")
-            with open(side, "w", encoding="utf-8") as handle:
-                json.dump(sc["sideload"], handle)
-            args += ["--sideload", side]
+            args += ["--sideload", P.write_sideload(work, sc["sideload"])]
         inv = {"args": args, "input": infile, "hits": sc["hits"], "domain_hits": sc.get("domain_hits", {}),
                "domain_lengths": sc.get("domain_lengths", {}), "salt": salt}
         result = P.invoke(inv)
